@@ -56,7 +56,10 @@ def plan(model_name, n, seed, first_tid):
                 pars.update(info.random())
             except Exception:
                 pass
-        pars = {kk: float(v) for kk, v in pars.items()}
+        # (a model's random() may name things that are not parameters, e.g. be_polyelectrolyte's
+        # 'contrast_fact'; only real parameters are passed on)
+        known = set(p.name for p in P.call_parameters)
+        pars = {kk: float(v) for kk, v in pars.items() if kk in known}
         if dim == "1d":
             cands = sorted(P.pd_1d)
         else:
